@@ -135,7 +135,7 @@ func (pr *Program) RunAnalyses(prop string) []*Obligation {
 	case "C16":
 		return pr.AnalysisC16()
 	case "C20":
-		return pr.AnalysisC20(pr.C20Derived)
+		return append(pr.AnalysisC20(pr.C20Derived), pr.AnalysisC20InitOrder()...)
 	}
 	return nil
 }
@@ -1240,4 +1240,182 @@ func (pr *Program) exportUnconditional(m, modPath string, export *FuncInfo) []*O
 		src = "ExportGenesis may skip records: " + strings.Join(bad, "; ")
 	}
 	return []*Obligation{staticObl("x/"+m+"/export-unconditional", "C20", "frame", len(bad) == 0, "x/"+m, src)}
+}
+
+
+// AnalysisC20InitOrder: a module whose InitGenesis (transitively) READS the store of another comdex module must be
+// initialised after that module (app.mm.SetOrderInitGenesis): otherwise its import sees an empty store there - setters that
+// validate against the other module reject or silently drop the imported records, and the round trip loses state.
+func (pr *Program) AnalysisC20InitOrder() []*Obligation {
+	var out []*Obligation
+	// 1. the order, read off app.go
+	order := map[string]int{}
+	var orderPos string
+	for _, pi := range pr.Pkgs {
+		if !strings.HasSuffix(pi.Path, "/comdex/app") {
+			continue
+		}
+		for _, f := range pi.P.Syntax {
+			ast.Inspect(f, func(n ast.Node) bool {
+				call, ok := n.(*ast.CallExpr)
+				if !ok {
+					return true
+				}
+				se, ok := call.Fun.(*ast.SelectorExpr)
+				if !ok || se.Sel.Name != "SetOrderInitGenesis" {
+					return true
+				}
+				orderPos = pr.Pos(call.Pos())
+				for i, a := range call.Args {
+					as, ok := a.(*ast.SelectorExpr)
+					if !ok {
+						continue
+					}
+					id, ok := as.X.(*ast.Ident)
+					if !ok {
+						continue
+					}
+					if pn, ok := pi.P.TypesInfo.Uses[id].(*types.PkgName); ok {
+						path := pn.Imported().Path()
+						if strings.Contains(path, "/comdex/x/") {
+							order[moduleOf(path)] = i
+						}
+					}
+				}
+				return false
+			})
+		}
+	}
+	if len(order) == 0 {
+		return []*Obligation{staticObl("app/init-order#found", "C20", "frame", false, "app", "app.mm.SetOrderInitGenesis(...) not found: the import order of the modules cannot be checked")}
+	}
+	// 2. per module: which other modules' stores does InitGenesis read
+	var mods []string
+	for m := range order {
+		mods = append(mods, m)
+	}
+	sort.Strings(mods)
+	x := NewExec(pr)
+	for _, m := range mods {
+		var initg *FuncInfo
+		for _, fi := range pr.Funcs {
+			if fi.Obj.Name() != "InitGenesis" || fi.Decl.Body == nil || !strings.HasSuffix(fi.Pkg.Path, "/x/"+m) && !strings.HasSuffix(fi.Pkg.Path, "/x/"+m+"/keeper") {
+				continue
+			}
+			sig := fi.Obj.Type().(*types.Signature)
+			if sig.Recv() != nil && strings.Contains(namedPath(sig.Recv().Type()), "AppModule") {
+				continue
+			}
+			if strings.HasSuffix(pr.Fset.Position(fi.Decl.Pos()).Filename, "_test.go") {
+				continue
+			}
+			if initg == nil || (sig.Recv() == nil && initg.Obj.Type().(*types.Signature).Recv() != nil) {
+				initg = fi
+			}
+		}
+		if initg == nil {
+			continue
+		}
+		reads := map[string]string{}
+		x.collectReads(initg.Decl.Body, initg.Pkg.P.TypesInfo, initg.Pkg, reads, map[*FuncInfo]bool{initg: true})
+		var deps []string
+		for n := range reads {
+			if n != m {
+				if _, ok := order[n]; ok {
+					deps = append(deps, n)
+				}
+			}
+		}
+		sort.Strings(deps)
+		for _, n := range deps {
+			ok := order[n] < order[m]
+			src := fmt.Sprintf("InitGenesis of x/%s reads the store of x/%s (through %s), so x/%s must be initialised before x/%s", m, n, reads[n], n, m)
+			if !ok {
+				src += " - but SetOrderInitGenesis lists it after: the import of x/" + m + " sees an empty x/" + n + " store"
+			}
+			out = append(out, staticObl("app/init-order#"+m+"-after-"+n, "C20", "frame", ok, orderPos, src))
+		}
+	}
+	return out
+}
+
+// collectReads: modules whose stores may be read by the code under n (transitively), with one witness function each.
+func (x *Exec) collectReads(n ast.Node, info *types.Info, pkg *PkgInfo, rs map[string]string, visiting map[*FuncInfo]bool) {
+	ast.Inspect(n, func(n ast.Node) bool {
+		call, ok := n.(*ast.CallExpr)
+		if !ok {
+			return true
+		}
+		var obj types.Object
+		var hint string
+		switch f := unparen(call.Fun).(type) {
+		case *ast.Ident:
+			obj = info.Uses[f]
+		case *ast.SelectorExpr:
+			if sel := info.Selections[f]; sel != nil {
+				obj = sel.Obj()
+				if in, ok := f.X.(*ast.SelectorExpr); ok {
+					hint = in.Sel.Name
+				}
+			} else {
+				obj = info.Uses[f.Sel]
+			}
+		}
+		fn, ok := obj.(*types.Func)
+		if !ok {
+			return true
+		}
+		mark := func() {
+			m := moduleOf(pkg.Path)
+			if _, seen := rs[m]; !seen {
+				w := pkg.Path
+				if i := strings.Index(w, "/comdex/"); i >= 0 {
+					w = w[i+len("/comdex/"):]
+				}
+				rs[m] = w
+			}
+		}
+		if fn.Pkg() != nil && strings.HasSuffix(fn.Pkg().Path(), "cosmos-sdk/types") && (fn.Name() == "KVStorePrefixIterator" || fn.Name() == "KVStoreReversePrefixIterator") {
+			mark()
+			return true
+		}
+		sig := fn.Type().(*types.Signature)
+		if sig.Recv() != nil {
+			rt := sig.Recv().Type()
+			rp := namedPath(rt)
+			isRead := fn.Name() == "Get" || fn.Name() == "Has" || fn.Name() == "Iterator" || fn.Name() == "ReverseIterator"
+			if _, isIface := rt.Underlying().(*types.Interface); isIface {
+				iname := ""
+				if nn, ok := rt.(*types.Named); ok {
+					iname = nn.Obj().Name()
+				}
+				if rp == "github.com/cosmos/cosmos-sdk/store/types.KVStore" || iname == "KVStore" || iname == "BasicKVStore" {
+					if isRead {
+						mark()
+					}
+					return true
+				}
+				if fi := x.Pr.ResolveIfaceMethod(rt, fn.Name(), hint); fi != nil && !visiting[fi] && fi.Decl.Body != nil {
+					visiting[fi] = true
+					x.collectReads(fi.Decl.Body, fi.Pkg.P.TypesInfo, fi.Pkg, rs, visiting)
+				}
+				return true
+			}
+			if strings.HasSuffix(rp, "prefix.Store") {
+				if isRead {
+					mark()
+				}
+				return true
+			}
+		}
+		fi, ok := x.Pr.Funcs[fn]
+		if !ok {
+			fi, ok = x.Pr.Funcs[fn.Origin()]
+		}
+		if ok && !visiting[fi] && fi.Decl.Body != nil {
+			visiting[fi] = true
+			x.collectReads(fi.Decl.Body, fi.Pkg.P.TypesInfo, fi.Pkg, rs, visiting)
+		}
+		return true
+	})
 }
